@@ -762,3 +762,60 @@ def table_value(module, name: str):
         raise AnalysisError(f"{module.short}:{name} is neither a literal nor foldable to a constant ({e})")
     except Exception as e:  # arithmetic / type errors inside the folded term
         raise AnalysisError(f"{module.short}:{name} could not be folded: {type(e).__name__}: {e}")
+
+
+def units_check(ctx, f, cell_params, floor: int = 1):
+    """Units discipline inside one function: the parameters in `cell_params` are widths in terminal CELLS.  Every comparison or
+    subtraction that relates such a width to another quantity must relate it to a cell measure (cell_len(..), another cell
+    quantity), never to a character count (len(..) of text).  Flow-insensitive unit inference over the function's local names."""
+    import ast as _ast
+    from ..astutil import alias_map, expand_alias
+    from ..index import norm, short, walk_local
+    aliases = alias_map(f.node)
+    unit = {p: "cells" for p in cell_params}
+
+    def u(e):
+        if isinstance(e, _ast.Constant):
+            return "const"
+        if isinstance(e, _ast.Name):
+            return unit.get(e.id)
+        if isinstance(e, _ast.Attribute) and e.attr in ("cell_len", "cell_length"):
+            return "cells"
+        if isinstance(e, _ast.Call):
+            cn = norm(expand_alias(e.func, aliases))
+            if cn.split(".")[-1] in ("cell_len", "get_character_cell_size"):
+                return "cells"
+            if cn == "len":
+                return "chars"
+            if cn in ("min", "max") and e.args:
+                us = {u(a) for a in e.args} - {"const", None}
+                return us.pop() if len(us) == 1 else ("mixed" if len(us) > 1 else None)
+            return None
+        if isinstance(e, _ast.BinOp) and isinstance(e.op, (_ast.Add, _ast.Sub)):
+            us = {u(e.left), u(e.right)} - {"const", None}
+            return us.pop() if len(us) == 1 else ("mixed" if len(us) == 2 else None)
+        if isinstance(e, _ast.BinOp) and isinstance(e.op, (_ast.FloorDiv, _ast.Mult)):
+            return u(e.left) if u(e.right) in ("const", None) else (u(e.right) if u(e.left) in ("const", None) else None)
+        return None
+    for _ in range(3):
+        for x in walk_local(f.node):
+            if isinstance(x, _ast.Assign) and len(x.targets) == 1 and isinstance(x.targets[0], _ast.Name):
+                uu = u(x.value)
+                if uu in ("cells", "chars") and unit.get(x.targets[0].id) in (None, uu):
+                    unit[x.targets[0].id] = uu
+    n = 0
+    for x in walk_local(f.node):
+        pairs = []
+        if isinstance(x, _ast.Compare) and len(x.ops) == 1 and isinstance(x.ops[0], (_ast.Lt, _ast.Gt, _ast.LtE, _ast.GtE, _ast.Eq, _ast.NotEq)):
+            pairs.append((x.left, x.comparators[0]))
+        if isinstance(x, _ast.BinOp) and isinstance(x.op, _ast.Sub):
+            pairs.append((x.left, x.right))
+        for a, b in pairs:
+            ua, ub = u(a), u(b)
+            if "cells" in (ua, ub) or "chars" in (ua, ub):
+                if {ua, ub} <= {"const", None, "chars"}:
+                    continue  # character arithmetic among itself is not this rule's business
+                n += 1
+                ctx.check({ua, ub} != {"cells", "chars"} and "mixed" not in (ua, ub), f.fq, short(x), f"{f.module.relpath}:{x.lineno}", f"`{short(x)}` relates {ua or 'a unitless value'} to {ub or 'a unitless value'}",
+                          f"`{short(x)}` in {f.qualname} relates a width in terminal cells to a character count (len): for double-width or zero-width characters the text is cropped / padded to the wrong width")
+    ctx.floor(n, floor, f"unit-sensitive comparisons/subtractions in {f.qualname}")
